@@ -12,7 +12,7 @@ suite=$(/verif/scripts/baseline.sh $S | grep "not passing now" | awk '{print $NF
 res=""
 for p in $PROPS; do
   [ -f /tmp/baseline_bad_$p.json ] || /verif/scripts/basebad.sh $p >/dev/null 2>&1
-  out=$(/verif/bin/jdlint -property $p -root $S -json 2>&1 | python3 -c "
+  out=$(${JDLINT:-/verif/bin/jdlint} -property $p -root $S -json 2>&1 | python3 -c "
 import sys,json
 base=set(tuple(x) for x in json.load(open('/tmp/baseline_bad_$p.json')))
 txt=sys.stdin.read()
